@@ -18,6 +18,7 @@ kernel.HASHSEED = os.environ.get("PYTHONHASHSEED", "0")
 WORLDS = {
     "C15": "worlds.c15",
     "C06": "worlds.c06",
+    "C04": "worlds.c04",
 }
 
 # per-property tier sizes: (runs, wall budget seconds, per-run timeout)
